@@ -3,6 +3,7 @@
     whose theorems are C01/C04/C05/C12; this file states the compositions used by the
     recompression, endianness-inversion and index-building commands. *)
 From Coq Require Import String.
+From WG Require Import Transform.Pipelines Transform.Statements Transform.RunFacts.
 From WG Require Import Base.Prelude Codes.Codes BV.Model BV.RefSel BV.Statements BV.Bits
   BV.BitsFacts BV.OffsetsStatements BV.OffsetsFacts BV.SelStatements BV.GreedyFacts
   BV.ZuckFacts Par.Splice Par.SpliceFacts Flags.Props Flags.Statements Flags.PropsFacts.
@@ -66,3 +67,13 @@ Print Assumptions C20_properties.
 Theorem C20_offsets_file : S_offsets_file.
 Proof. exact offsets_file. Qed.
 Print Assumptions C20_offsets_file.
+
+(** the transform commands ([transform transpose | symmetrize | perm | map], and [to bvgraph
+    --permutation]): the transformation pipeline, sequential or parallel, with any sorter
+    meeting the C08 contract, any partition count, cut sequence and arrival order, yields
+    exactly the specification graph [xop_spec op g] (which is what the correspondence run
+    recomputes as the expected content of the produced file set); compressing that graph
+    is [C20_recompress] *)
+Theorem C20_transforms : S_run_xop.
+Proof. exact run_xop_correct. Qed.
+Print Assumptions C20_transforms.
